@@ -351,6 +351,11 @@ class Nodes:
         """
         minus_sign = "-" if value < 0.0 else None
         strval = format(value, '.15f').rstrip('0').rstrip('.')
+        if "." not in strval:
+            # A whole number must keep its fraction lest it be emitted with
+            # the wrong magnitude (100.0 as 10.00) or as an unloadable
+            # !!float '2'
+            strval += ".0"
         precision = 0
         width = len(strval)
         lastdot = strval.rfind(".")
